@@ -1,5 +1,6 @@
 #pragma once
 
+#include "VerifTrace.h"
 #include "FileReader.h"
 #include <string>
 #include <cstddef>
@@ -45,6 +46,7 @@ namespace OP2Utility::Stream
 
 
 		std::size_t ReadPartial(void* buffer, std::size_t size) noexcept override {
+			OP2UTILITY_VERIF_SCOPE("slice", "ReadPartial", size, 0);
 			auto bytesLeft = sliceLength - Position();
 			// Note: if !(size < bytesLeft) then bytesLeft fits within a size_t
 			std::size_t readSize = (size < bytesLeft) ? size : static_cast<std::size_t>(bytesLeft);
@@ -63,6 +65,7 @@ namespace OP2Utility::Stream
 
 
 		void SeekForward(uint64_t offset) override {
+			OP2UTILITY_VERIF_SCOPE("slice", "SeekForward", offset, 0);
 			if (offset > sliceLength - Position())
 			{
 				throw std::runtime_error(
@@ -75,6 +78,7 @@ namespace OP2Utility::Stream
 		}
 
 		void SeekBackward(uint64_t offset) override {
+			OP2UTILITY_VERIF_SCOPE("slice", "SeekBackward", offset, 0);
 			if (offset > Position()) {
 				throw std::runtime_error(
 					"Seek backward by offset of " + std::to_string(offset) + " is beyond the bounds of the stream slice."
@@ -86,6 +90,7 @@ namespace OP2Utility::Stream
 		}
 
 		void Seek(uint64_t position) override {
+			OP2UTILITY_VERIF_SCOPE("slice", "Seek", position, 0);
 			if (position > sliceLength) {
 				throw std::runtime_error(
 					"Seek to absolute offset of " + std::to_string(position) + " is beyond the bounds of the stream slice."
@@ -98,6 +103,7 @@ namespace OP2Utility::Stream
 
 
 		SliceReader<WrappedStreamType> Slice(uint64_t sliceLength) {
+			OP2UTILITY_VERIF_SCOPE("slice", "SliceHere", sliceLength, 0);
 			auto slice = Slice(Position(), sliceLength);
 
 			// Wait until slice is successfully created before seeking forward.
@@ -107,6 +113,7 @@ namespace OP2Utility::Stream
 		}
 
 		SliceReader<WrappedStreamType> Slice(uint64_t sliceStartPosition, uint64_t sliceLength) const {
+			OP2UTILITY_VERIF_SCOPE("slice", "SliceAt", sliceStartPosition, sliceLength);
 			if (
 				sliceStartPosition + sliceLength > this->sliceLength ||
 				sliceLength > std::numeric_limits<decltype(sliceStartPosition)>::max() - sliceStartPosition
@@ -128,6 +135,7 @@ namespace OP2Utility::Stream
 	protected:
 
 		void ReadImplementation(void* buffer, std::size_t size) override {
+			OP2UTILITY_VERIF_SCOPE("slice", "Read", size, 0);
 			if (size > sliceLength - Position()) {
 				throw std::runtime_error(
 					"Stream Read request extends beyond the bounds of the stream slice."
